@@ -5,6 +5,7 @@ import (
 	"fmt"
 	"go/ast"
 	"go/token"
+	"regexp"
 	"strconv"
 	"strings"
 
@@ -237,12 +238,45 @@ func genC19(repo string) {
 	kf := Funcs(keeper)
 	sf := Funcs(sdb)
 
+	// The bloom-update function is recognised by ROLE, not by name or form: the function of package keeper whose
+	// body writes both <state>.BlockBloom.Set(ctx, …) and <state>.BlockLogSize.Set(ctx, <base>+uint64(len(…))) —
+	// a method of the keeper or a free function taking the EvmState; <base> must be one of its parameters, and
+	// its position in the parameter list tells which argument of a call site is the base log index.
+	var bloomFn *ast.FuncDecl
+	bloomName, baseParam, baseIdx := "", "", -1
+	reSize := regexp.MustCompile(`([A-Za-z_][A-Za-z0-9_.]*)\.BlockLogSize\.Set\(ctx,([A-Za-z_][A-Za-z0-9_]*)\+uint64\(len\(([A-Za-z_][A-Za-z0-9_.]*)\)\)\)`)
+	for _, fl := range keeper {
+		for _, d := range fl.F.Decls {
+			fd, ok := d.(*ast.FuncDecl)
+			if !ok || fd.Body == nil {
+				continue
+			}
+			body := Nospace(fd.Body)
+			m := reSize.FindStringSubmatch(body)
+			if m == nil || !strings.Contains(body, m[1]+".BlockBloom.Set(ctx,") {
+				continue
+			}
+			idx, pos := -1, 0
+			for _, f := range fd.Type.Params.List {
+				for _, n := range f.Names {
+					if n.Name == m[2] {
+						idx = pos
+					}
+					pos++
+				}
+			}
+			if idx >= 0 && bloomFn == nil {
+				bloomFn, bloomName, baseParam, baseIdx = fd, fd.Name.Name, m[2], idx
+			}
+		}
+	}
+
 	type site struct{ fn, arg, base string }
 	var sites []site
 	for _, fl := range keeper {
 		for _, d := range fl.F.Decls {
 			fd, ok := d.(*ast.FuncDecl)
-			if !ok || fd.Body == nil {
+			if !ok || fd.Body == nil || fd == bloomFn || bloomFn == nil {
 				continue
 			}
 			ast.Inspect(fd.Body, func(n ast.Node) bool {
@@ -250,11 +284,17 @@ func genC19(repo string) {
 				if !ok {
 					return true
 				}
-				sel, ok := call.Fun.(*ast.SelectorExpr)
-				if !ok || sel.Sel.Name != "updateBlockBloom" || len(call.Args) != 3 {
+				callee := ""
+				switch f := call.Fun.(type) {
+				case *ast.SelectorExpr:
+					callee = f.Sel.Name
+				case *ast.Ident:
+					callee = f.Name
+				}
+				if callee != bloomName || len(call.Args) <= baseIdx {
 					return true
 				}
-				arg := Nospace(call.Args[2])
+				arg := Nospace(call.Args[baseIdx])
 				base := "BaseUnknown"
 				// tolerate renamings: the receiver and the local holding k.TxConfig(ctx, …) may have any name
 				cfgVar := txConfigVar(fd)
@@ -307,13 +347,21 @@ func genC19(repo string) {
 		v := txConfigVar(fd)
 		incr = v != "" && strings.Contains(Nospace(fd.Body), ".EvmState.BlockTxIndex.Set(ctx,uint64("+v+".TxIndex)+1)")
 	}
-	// updateBlockBloom sets BlockLogSize := logIndex + len(logs) when there are logs
+	// the bloom-update function sets BlockLogSize := base + len(logs) and folds the logs into BlockBloom, only when
+	// the response has logs: `if len(<resp>.Logs) > 0 { <logs> := evm.LogsToEthereum(<resp>.Logs); <st>.BlockBloom.Set(ctx,
+	// <st>.CalcBloomFromLogs(ctx, <logs>).Bytes()); <st>.BlockLogSize.Set(ctx, <base>+uint64(len(<logs>))) }`
 	form := false
-	if fd := kf["updateBlockBloom"]; fd != nil && fd.Body != nil {
-		body := Nospace(fd.Body)
-		form = strings.Contains(body, "iflen(evmResp.Logs)>0{") &&
-			strings.Contains(body, "k.EvmState.BlockLogSize.Set(ctx,logIndex+uint64(len(logs)))") &&
-			strings.Contains(body, "k.EvmState.BlockBloom.Set(ctx,k.EvmState.CalcBloomFromLogs(ctx,logs).Bytes())")
+	if bloomFn != nil {
+		body := Nospace(bloomFn.Body)
+		m := reSize.FindStringSubmatch(body)
+		st, logs := m[1], m[3]
+		reGuard := regexp.MustCompile(`iflen\(([A-Za-z_][A-Za-z0-9_]*)\.Logs\)>0\{`)
+		g := reGuard.FindStringSubmatch(body)
+		form = g != nil && m[2] == baseParam &&
+			strings.Contains(body, logs+":=evm.LogsToEthereum("+g[1]+".Logs)") &&
+			strings.Contains(body, st+".BlockBloom.Set(ctx,"+st+".CalcBloomFromLogs(ctx,"+logs+").Bytes())") &&
+			strings.Index(body, g[0]) < strings.Index(body, st+".BlockBloom.Set(ctx,") &&
+			strings.Index(body, g[0]) < strings.Index(body, m[0])
 	}
 
 	fmt.Println("Require Import Nib.C19.Sites.")
